@@ -463,3 +463,22 @@ Proof.
     + replace (i + 1) with (length (seq 0 (lo + 1))) by (rewrite seq_length; unfold lo; lia).
       rewrite nth_middle. unfold hi. lia.
 Qed.
+
+(* every split of gate_with_auto_swap works with the caller's options (so a request for
+   no truncation reaches the swaps towards, the gate split AND the swaps back), and the
+   number of splits is 2(hi-lo-1)+1 resp. (hi-lo-1)+1 *)
+Theorem auto_swap_forwards_options (O : Type) i j sb (o : O) :
+  Forall (fun c => snd c = o) (auto_swap_splits i j sb o)
+  /\ length (auto_swap_splits i j sb o)
+     = let d := Nat.max i j - Nat.min i j - 1 in if sb then 2 * d + 1 else d + 1.
+Proof.
+  unfold auto_swap_splits.
+  assert (Hd : ap_hi (auto_swap_plan i j) - ap_lo (auto_swap_plan i j) - 1 = Nat.max i j - Nat.min i j - 1).
+  { unfold auto_swap_plan. destruct (j <? i) eqn:E; cbn; [apply Nat.ltb_lt in E | apply Nat.ltb_ge in E]; lia. }
+  rewrite Hd. set (d := Nat.max i j - Nat.min i j - 1). split.
+  - apply Forall_forall. intros c Hc. apply in_app_or in Hc. destruct Hc as [Hc|Hc].
+    + apply repeat_spec in Hc. subst. reflexivity.
+    + apply in_app_or in Hc. destruct Hc as [[<-|[]]|Hc]; [reflexivity|].
+      destruct sb; [apply repeat_spec in Hc; subst; reflexivity | contradiction].
+  - rewrite !app_length, repeat_length. cbn [length]. destruct sb; [rewrite repeat_length|]; cbn [length]; lia.
+Qed.
